@@ -82,6 +82,9 @@ def representations(c, kind, dom, m=2, n=2, N=2):
     oaf = model.forward(af)
     c.holds('cuqiarray_funvals_in_gives_cuqiarray_out', isinstance(oaf, CUQIarray) and oaf.is_par)
     c.eq('forward_of_cuqiarray_function_values', np.asarray(oaf), spec)
+    # the representation flag given as a numpy boolean (what array comparisons return): the same two representations
+    c.eq('forward_of_cuqiarray_parameters_flagged_by_a_numpy_bool', np.asarray(model.forward(CUQIarray(p.copy(), is_par=np.True_, geometry=gd))), spec)
+    c.eq('forward_of_cuqiarray_function_values_flagged_by_a_numpy_bool', np.asarray(model.forward(CUQIarray(gd.par2fun(p), is_par=np.False_, geometry=gd))), spec)
     # the same function values carried by a DISTINCT geometry object of the same configuration (the user built it a second time): same result,
     # whatever the model's own geometry object has been used for in the meantime
     if dom != 'Grad' and not dom.startswith('Mapped'):
@@ -95,6 +98,14 @@ def representations(c, kind, dom, m=2, n=2, N=2):
     c.holds('samples_in_gives_samples_out_with_range_geometry', isinstance(S, Samples) and S.geometry == model.range_geometry and S.samples.shape == (m, N))
     for k in range(N):
         c.eq(f'samples_column[{k}]', S.samples[:, k], f(gd.par2fun(P[:, k])))
+    # the same collection held as FUNCTION VALUES (Samples.funvals; flag is_par False): the same outputs
+    try: SF = Samples(P, gd).funvals
+    except Exception: SF = None
+    if SF is not None and not SF.is_par:
+        S2 = model.forward(SF)
+        c.holds('function_value_samples_in_gives_samples_out_with_range_geometry', isinstance(S2, Samples) and S2.geometry == model.range_geometry and S2.samples.shape == (m, N))
+        for k in range(N):
+            c.eq(f'function_value_samples_column[{k}]', S2.samples[:, k], f(gd.par2fun(P[:, k])))
 
 
 def gradient(c, kind, dom, m=2, n=2):
